@@ -1,4 +1,5 @@
 import Bardolph.Driver.TimePattern
+import Bardolph.Driver.Clock
 /-! All driver handlers; `dispatch` routes one request line. -/
 namespace Bardolph.Driver
 
@@ -6,6 +7,9 @@ def dispatch (line : String) : String :=
   match line.splitOn "\t" with
   | cmd :: args =>
     match TP.handle cmd args with
+    | some r => r
+    | none =>
+    match Clk.handle cmd args with
     | some r => r
     | none => "bad-cmd"
   | [] => "bad-cmd"
